@@ -185,7 +185,10 @@ impl<'a> Decoder<'a> {
 
     // Decode `JEntries` for `Array` and `Object`
     fn decode_jentries(&mut self, length: usize) -> Result<VecDeque<JEntry>, Error> {
-        let mut jentries: VecDeque<JEntry> = VecDeque::with_capacity(length);
+        // the count comes from untrusted bytes: reserve no more entries than the remaining bytes can hold
+        let available = self.buf.len() / 4;
+        let capacity = if length < available { length } else { available };
+        let mut jentries: VecDeque<JEntry> = VecDeque::with_capacity(capacity);
         for _ in 0..length {
             let encoded = self.buf.read_u32::<BigEndian>()?;
             let jentry = JEntry::decode_jentry(encoded);
